@@ -848,6 +848,8 @@ fn chain_block(cb_keys: std::ops::Range<u8>) -> impl Strategy<Value = RawBlock> 
 		diff: 1,
 		neg: Neg::None,
 		neg_pick: 0,
+			hdr: 0,
+			inp: 0,
 	})
 }
 
@@ -1047,7 +1049,7 @@ pub fn check_chain(ctx: &Ctx, case: &ChainCase, counting: bool) -> PResult {
 	let spends_pre = run.spends;
 	if case.header_ahead {
 		// the header of the next block arrives before its body (the body never does)
-		let raw = RawBlock { parent: 0, cb_key: 3, txs: vec![], dt: 60, diff: 1, neg: Neg::None, neg_pick: 0 };
+		let raw = RawBlock { parent: 0, cb_key: 3, txs: vec![], dt: 60, diff: 1, neg: Neg::None, neg_pick: 0, hdr: 0, inp: 0 };
 		let built = run.w.build(run.cb.c(), &raw, run.head).map_err(|e| Fail::new("harness:builder", format!("header ahead: {}", e)))?;
 		run.cb.c().process_block_header(&built.block.header, opts(PowMode::Real)).map_err(|e| Fail::new("valid-header-rejected", format!("header of the next block: {}", err_name(&e))))?;
 		if counting {
@@ -1110,6 +1112,8 @@ pub fn check_chain(ctx: &Ctx, case: &ChainCase, counting: bool) -> PResult {
 					diff: 1,
 					neg: Neg::None,
 					neg_pick: 0,
+			hdr: 0,
+			inp: 0,
 				},
 				&format!("filler block {}", k),
 			)?;
@@ -1197,8 +1201,10 @@ pub fn run(ctx: &Ctx) -> HResult<()> {
 			diff: 1,
 			neg: Neg::None,
 			neg_pick: 0,
+			hdr: 0,
+			inp: 0,
 		};
-		let empty = |k: u8| RawBlock { parent: 0, cb_key: k, txs: vec![], dt: 60, diff: 1, neg: Neg::None, neg_pick: 0 };
+		let empty = |k: u8| RawBlock { parent: 0, cb_key: k, txs: vec![], dt: 60, diff: 1, neg: Neg::None, neg_pick: 0, hdr: 0, inp: 0 };
 		let mut pre = vec![old_pair];
 		pre.extend((0..19).map(|_| empty(0)));
 		let directed = ChainCase { pre, depth: 20, extra: 1, fork: vec![empty(2)], reopen: false, post: vec![], second: None, header_ahead: true };
